@@ -118,3 +118,4 @@ PROPS["C11"]["custom"] = "check_c11"
 PROPS["C19"]["selftest_skip_ops"] = ["rmod"]   # a single modular draw is only range-constrained (any v < m is admissible)
 PROPS["C01"]["custom"] = "check_c01"
 PROPS["C02"]["paths"] = {"quick": 1, "thorough": 7}
+PROPS["C04"]["apalache"] = [dict(spec="apalache/WordLemmas64.tla", inv="Inv")]
